@@ -49,6 +49,7 @@ type region struct {
 // (recorded in full in the trace).
 type wcall struct {
 	Fn    string     `json:"fn"`
+	Shape string     `json:"shape,omitempty"` // call shape (see guest.go): "" flat wrapper, d8/d16/d24/df dirty stack, n3 nested, d24n3
 	Args  []uint64   `json:"args"`
 	In    []memWrite `json:"in,omitempty"`
 	Out   []region   `json:"out,omitempty"`
@@ -433,6 +434,10 @@ func genScript(sigs []wasiproxy.Sig, seed uint64, n int) []wcall {
 			pick = append(pick, i)
 		}
 	}
+	idx := map[string]*wasiproxy.Sig{}
+	for i := range sigs {
+		idx[sigs[i].Name] = &sigs[i]
+	}
 	withExit := exit >= 0 && r.Chance(1, 5)
 	calls := make([]wcall, 0, n)
 	for k := 0; k < n; k++ {
@@ -440,7 +445,42 @@ func genScript(sigs []wasiproxy.Sig, seed uint64, n int) []wcall {
 			calls = append(calls, genCall(r.Split(), &sigs[exit]))
 			break
 		}
-		calls = append(calls, genCall(r.Split(), &sigs[pick[r.Intn(len(pick))]]))
+		// script-level dirty-stack pattern: a WASI call carrying all-ones 64-bit
+		// arguments right before the step
+		if k < n-1 && r.Chance(1, 8) {
+			calls = append(calls, allOnesCall(r.Split(), idx))
+			k++
+		}
+		c := genCall(r.Split(), &sigs[pick[r.Intn(len(pick))]])
+		if r.Chance(1, 2) {
+			c.Shape = callShapes[1+r.Intn(len(callShapes)-1)]
+		}
+		calls = append(calls, c)
 	}
 	return calls
+}
+
+// allOnesCall is fd_filestat_set_times(fd,-1,-1,0), fd_advise(fd,-1,-1,0) or
+// fd_seek(fd,-1,whence,ptr): 64-bit arguments with every bit set.
+func allOnesCall(r *core.Rng, idx map[string]*wasiproxy.Sig) wcall {
+	const ones = ^uint64(0)
+	fd := uint64(r.Intn(4))
+	c := wcall{FD: int64(fd), Valid: true, Note: "all-ones-args"}
+	switch r.Intn(3) {
+	case 0:
+		c.Fn, c.Args = "fd_filestat_set_times", []uint64{fd, ones, ones, 0}
+	case 1:
+		c.Fn, c.Args = "fd_advise", []uint64{fd, ones, ones, 0}
+	default:
+		g := &gen{r: r, c: &c, cur: 256 + uint32(r.Intn(30000))}
+		c.Fn = "fd_seek"
+		c.Args = []uint64{fd, ones, uint64(r.Intn(3)), uint64(g.out(8, "newoffset"))}
+	}
+	if idx[c.Fn] == nil {
+		c.Fn, c.Args, c.In, c.Out = "sched_yield", nil, nil, nil
+	}
+	if r.Chance(1, 3) {
+		c.Shape = callShapes[1+r.Intn(len(callShapes)-1)]
+	}
+	return c
 }
